@@ -3,11 +3,13 @@
 package props
 
 import (
+	"crypto"
 	"crypto/rsa"
 	"crypto/x509"
 	"errors"
 	"fmt"
 	"html"
+	"io"
 	"math/big"
 	"math/rand/v2"
 	"net/url"
@@ -543,4 +545,16 @@ func OtherUse(r *rand.Rand, sp *saml2.SAMLServiceProvider) string {
 		}
 	}
 	return done
+}
+
+// OpaqueKey hides an RSA key behind the crypto.Signer and crypto.Decrypter interfaces (what an HSM or KMS client
+// hands out): it cannot be type-asserted to *rsa.PrivateKey.
+type OpaqueKey struct{ k *rsa.PrivateKey }
+
+func (o OpaqueKey) Public() crypto.PublicKey { return o.k.Public() }
+func (o OpaqueKey) Sign(rnd io.Reader, digest []byte, opts crypto.SignerOpts) ([]byte, error) {
+	return o.k.Sign(rnd, digest, opts)
+}
+func (o OpaqueKey) Decrypt(rnd io.Reader, msg []byte, opts crypto.DecrypterOpts) ([]byte, error) {
+	return o.k.Decrypt(rnd, msg, opts)
 }
